@@ -124,7 +124,15 @@ class InputPaths:
 
     def open(self) -> InputFiles:
         files = [xopen_rb_raise_limit(path) for path in self.paths]
-        return InputFiles(*files, interleaved=self.interleaved)
+        # Detect the format from the content, as the reader process of the
+        # parallel runner does, instead of letting dnaio guess from the file name
+        try:
+            fileformat = detect_file_format(files[0]).name.lower()
+        except Exception:
+            for file in files:
+                file.close()
+            raise
+        return InputFiles(*files, interleaved=self.interleaved, fileformat=fileformat)
 
 
 class ProxyWriter(ABC):
